@@ -173,6 +173,15 @@ def _apply_r2(body, counts):
     return body
 
 
+PROOF_MARK = "// @proof-step"
+
+
+def _mark(text):
+    """tag every line of proof text that the machinery splices INTO a body (hints, loop_begins / loop_ends, prologue): a
+    diagnostic on such a line is a failed proof step of the machinery, not a failed clause of the function's contract"""
+    return "\n".join((l + "  " + PROOF_MARK) if l.strip() else l for l in text.split("\n"))
+
+
 def _splice_fn(src_text, f, counts):
     info = rsx.find_fn(src_text, f["name"], f.get("impl_of"), f.get("impl_filter"))
     sig = info["sig"]
@@ -212,12 +221,12 @@ def _splice_fn(src_text, f, counts):
     mb = rsx.mask(body)
     # insertion points (offset, text): loop clauses before the `{` of loop k, proof text before the `}` that closes it
     ins = [(lp[k - 1][1], "\n" + want[k].rstrip() + "\n") for k in want]
-    ins += [(rsx.match_brace(mb, lp[k - 1][1]), "\n" + ends[k].rstrip() + "\n") for k in ends]
+    ins += [(rsx.match_brace(mb, lp[k - 1][1]), "\n" + _mark(ends[k].rstrip()) + "\n") for k in ends]
     # `loop_begins`: proof text right after the brace that OPENS loop k's body (independent of what the body's first line is)
     begins = f.get("loop_begins", {})
     if begins and max(begins) > len(lp):
         raise Undecided("lost anchor: fn %s has %d loops, begin-of-body proof for loop %d" % (f["name"], len(lp), max(begins)))
-    ins += [(lp[k - 1][1] + 1, "\n" + begins[k].rstrip() + "\n") for k in begins]
+    ins += [(lp[k - 1][1] + 1, "\n" + _mark(begins[k].rstrip()) + "\n") for k in begins]
     for (off, txt) in sorted(ins, key=lambda x: -x[0]):
         body = body[:off] + txt + body[off:]
     for (anchor, text, *where) in f.get("hints", []):
@@ -228,10 +237,14 @@ def _splice_fn(src_text, f, counts):
             raise Undecided("lost anchor: hint anchor %r occurs on %d lines in %s" % (anchor, len(hits), f["name"]))
         i = hits[0]
         if where and where[0] == "before":
-            lines.insert(i, text)
+            lines.insert(i, _mark(text))
         else:
-            lines.insert(i + 1, text)
+            lines.insert(i + 1, _mark(text))
         body = "\n".join(lines)
+    # `prologue`: proof text right after the brace that opens the function body (independent of what the first statement is)
+    if f.get("prologue"):
+        ob = body.index("{")
+        body = body[:ob + 1] + "\n" + _mark(f["prologue"].rstrip()) + "\n" + body[ob + 1:]
     clauses = ""
     if f.get("requires"):
         clauses += "\n    requires\n" + f["requires"].rstrip().rstrip(",") + ","
@@ -510,7 +523,12 @@ def classify(unit_name, res, fn_name):
     if errs:
         sem = [e for e in errs if _SEMANTIC.search(e[0])]
         if sem and len(sem) == len(errs):
-            detail = "; ".join("%s (generated line %d: %s)" % (e[0], e[1], res["text"].splitlines()[e[1] - 1].strip()[:120]) for e in sem[:4])
+            tl = res["text"].splitlines()
+            detail = "; ".join("%s (generated line %d: %s)" % (e[0], e[1], tl[e[1] - 1].replace(PROOF_MARK, "").strip()[:120]) for e in sem[:4])
+            # every diagnostic sits on proof text that the machinery spliced in (a hint), none on a clause of the contract,
+            # on an invariant or on the code: the PROOF broke, the contract was not refuted (decided further by the caller)
+            if all(PROOF_MARK in tl[e[1] - 1] for e in sem):
+                return "failed-proof-step", detail, secs, diag
             return "failed", detail, secs, diag
         return "undecided", "verus error that is not a failed obligation: %s" % "; ".join(e[0] for e in errs[:3]), secs, None
     if re.search(r"rlimit|Resource limit|timed out", diag):
@@ -587,6 +605,9 @@ def run(ctx, obls):
             st, reason, secs, diag = classify(uname, res, o.extra["fn"])
             oc = {"status": st, "reason": reason, "seconds": round(secs, 3), "backend": "verus 0.2026.09.13 / z3",
                   "rules_applied": res["counts"], "verus_functions": sorted(res["fn_lines"]), "unit": uname}
+            proof_step = (st == "failed-proof-step")
+            if proof_step:
+                st = oc["status"] = "failed"
             if st == "failed":
                 oc["failed_check"] = reason
                 oc["verifier_output"] = (diag or "")[:3000]
@@ -603,5 +624,11 @@ def run(ctx, obls):
                 if w:
                     oc["witness"] = w
                     oc["input_found"] = True
+                elif proof_step:
+                    # only proof steps of the machinery's own making failed and no failing input exists in the paired bounded
+                    # families: a broken PROOF (typically a hint whose anchor line moved relative to the statements it talks
+                    # about), not a refuted contract - undecided, never an alarm (DESIGN 10.6)
+                    oc["status"] = "undecided"
+                    oc["reason"] = "proof step spliced by the machinery no longer holds on the edited text and no failing input was found by %s; the contract clauses themselves were not refuted: %s" % (o.witness or "any paired obligation", reason)
             out[o.id] = oc
     return out
